@@ -27,6 +27,8 @@ def _items(module: Module, it: ast.AST, env: Dict[str, Any]) -> List[Any]:
             return list(ast.literal_eval(it))
         except (ValueError, SyntaxError):
             pass
+        # a display of expressions over the environment: [self.ymin, self.ymax]
+        return [int_ev(x, env) for x in it.elts]
     raise CannotEval(src(it))
 
 
@@ -76,3 +78,78 @@ def positions_of(module: Module, e: ast.AST, env: Dict[str, Any]) -> List[Tuple[
     except CannotEval as ce:
         raise AnalysisError(f'positions outside the grammar: {ce}')
     return out
+
+
+def area_positions(index, selection: str, ys: Tuple[int, int], xs: Tuple[int, int],
+                   depth: int = 3) -> List[Tuple[int, int]]:
+    """the sequence of positions `Area(ys, xs).positions(selection)` denotes, read off the
+    method: the assignment selected by the tests on `selection`, generator expressions over
+    `range(..)` / `self.y_coordinates()` / `self.x_coordinates()` / literal lists of the bounds,
+    `itertools.chain(..)` as concatenation, recursive `self.positions(..)`"""
+    from .guards import expand_under, truth_under, strip_iter, walk_function
+    from .inline import pure_body_expr
+    if depth < 0:
+        raise AnalysisError('Area.positions: recursion too deep')
+    GEOM = 'gym_gridverse/geometry.py'
+    area_cls = index.cls(GEOM, 'Area')
+    m = index.method(area_cls, 'positions')
+    if m is None:
+        raise AnalysisError('anchor vanished: Area.positions')
+    ps = [a.arg for a in m.node.args.args]
+    sel = ps[1] if len(ps) > 1 else 'selection'
+    env: Dict[str, Any] = {sel: selection, 'self.ymin': ys[0], 'self.ymax': ys[1],
+                           'self.xmin': xs[0], 'self.xmax': xs[1], 'self.ys[0]': ys[0],
+                           'self.ys[1]': ys[1], 'self.xs[0]': xs[0], 'self.xs[1]': xs[1],
+                           'self.height': ys[1] - ys[0] + 1, 'self.width': xs[1] - xs[0] + 1}
+    w = walk_function(m.node)
+
+    def atom_truth(a: ast.AST):
+        try:
+            return bool(int_ev(w.expand(a), env))
+        except (CannotEval, TypeError):
+            return None
+    value = None
+    for e in w.events:
+        if e.kind not in ('return', 'raise'):
+            continue
+        t = truth_under(strip_iter(e.guard), atom_truth)
+        if t is None:
+            raise AnalysisError(f'Area.positions: guard `{src(e.stmt)[:50]}` not decided')
+        if t:
+            if e.kind == 'raise':
+                raise AnalysisError(f"Area.positions({selection!r}) raises")
+            value = expand_under(w, e.value, atom_truth)
+            break
+    if value is None:
+        raise AnalysisError('Area.positions: no return reached')
+
+    def coords(it: ast.AST) -> ast.AST:
+        # self.y_coordinates() -> the range its body returns
+        if isinstance(it, ast.Call) and isinstance(it.func, ast.Attribute) and \
+                src(it.func.value) == 'self' and not it.args:
+            mm = index.method(area_cls, it.func.attr)
+            b = pure_body_expr(mm.node) if mm is not None else None
+            if b is not None:
+                return b
+        return it
+
+    def seq(e: ast.AST) -> List[Tuple[int, int]]:
+        if isinstance(e, ast.Call) and src(e.func).split('.')[-1] == 'chain' and not e.keywords:
+            out: List[Tuple[int, int]] = []
+            for a in e.args:
+                out += seq(a)
+            return out
+        if isinstance(e, ast.Call) and src(e.func) in ('list', 'tuple', 'iter') and \
+                len(e.args) == 1:
+            return seq(e.args[0])
+        if isinstance(e, ast.Call) and src(e.func) == 'self.positions' and len(e.args) <= 1 \
+                and not e.keywords:
+            s2 = int_ev(e.args[0], env) if e.args else 'all'
+            return area_positions(index, s2, ys, xs, depth - 1)
+        if isinstance(e, (ast.GeneratorExp, ast.ListComp)):
+            import copy
+            e = copy.deepcopy(e)
+            for g in e.generators:
+                g.iter = coords(g.iter)
+        return positions_of(m.module, e, env)
+    return seq(value)
